@@ -88,7 +88,11 @@ type Scenario struct {
 // RunScenario executes a scenario. Besides the event kinds of doc.go it understands the macro
 // {"k":"_settle","m":rounds,"rnd":r}: repeatedly, for every live node in id order, step / run the
 // whole Ready / apply, then deliver every not-yet-delivered message once, until nothing happens or
-// the rounds are used up. Macros are expanded into concrete events (returned for the record).
+// the rounds are used up. With "x":N the macro stops as soon as node N holds an in-flight Ready that
+// carries a snapshot (before any of its sub-steps ran). {"k":"_block","n":N} / {"k":"_unblock","n":N}
+// make _settle skip deliveries to and from node N (a partition); {"k":"_dropnet","n":N} loses every
+// message to or from N that is in the network.
+// Macros are expanded into concrete events (returned for the record).
 func RunScenario(sc Scenario, dir string, sink func(*Record)) []Event {
 	opt := sc.Opt
 	opt.Dir = dir
@@ -102,6 +106,7 @@ func RunScenario(sc Scenario, dir string, sink func(*Record)) []Event {
 	}
 	var done []Event
 	delivered := map[int]bool{}
+	blocked := map[uint64]bool{}
 	do := func(ev Event) *Record {
 		done = append(done, ev)
 		rec := c.Apply(ev)
@@ -111,6 +116,24 @@ func RunScenario(sc Scenario, dir string, sink func(*Record)) []Event {
 	for _, ev := range sc.Events {
 		if c.Panic != "" {
 			break
+		}
+		if ev.K == "_block" {
+			blocked[ev.N] = true
+			continue
+		}
+		if ev.K == "_dropnet" {
+			// every message to or from node N that is in the network is lost
+			for _, mid := range append([]int(nil), c.NetIDs()...) {
+				m, _ := c.Msg(mid)
+				if m.From == ev.N || m.To == ev.N {
+					do(Event{K: "drop", M: mid})
+				}
+			}
+			continue
+		}
+		if ev.K == "_unblock" {
+			delete(blocked, ev.N)
+			continue
 		}
 		if ev.K != "_settle" {
 			if ev.K == "propose" && ev.P == 0 {
@@ -123,7 +146,8 @@ func RunScenario(sc Scenario, dir string, sink func(*Record)) []Event {
 		if rounds == 0 {
 			rounds = 20
 		}
-		for r := 0; r < rounds && c.Panic == ""; r++ {
+		stop := false
+		for r := 0; r < rounds && c.Panic == "" && !stop; r++ {
 			progress := false
 			for _, id := range c.IDs() {
 				v := c.View(id)
@@ -131,8 +155,13 @@ func RunScenario(sc Scenario, dir string, sink func(*Record)) []Event {
 					continue
 				}
 				if !v.InFlight {
-					if rec := do(Event{K: "step", N: id, Rnd: ev.Rnd}); rec.Rd != nil {
+					rec := do(Event{K: "step", N: id, Rnd: ev.Rnd})
+					if rec.Rd != nil {
 						progress = true
+						if ev.X == id && rec.Rd.Snap != nil {
+							stop = true
+							break
+						}
 					}
 				}
 				if c.Panic == "" && c.View(id).InFlight {
@@ -144,11 +173,17 @@ func RunScenario(sc Scenario, dir string, sink func(*Record)) []Event {
 					progress = true
 				}
 			}
+			if stop {
+				break
+			}
 			for _, mid := range append([]int(nil), c.NetIDs()...) {
 				if delivered[mid] || c.Panic != "" {
 					continue
 				}
 				m, _ := c.Msg(mid)
+				if blocked[m.From] || blocked[m.To] {
+					continue
+				}
 				delivered[mid] = true
 				if c.View(m.To).Alive {
 					do(Event{K: "deliver", N: m.To, M: mid})
